@@ -17,8 +17,8 @@ CHECK = {
              "part tsan: every assignment of 3 events to 2 streams (8) and to 3 streams (27), plus one "
              "event per stream for 4, 8 and 16 streams (identity assignment and rotated by one), x the same "
              "six variants (quick: the three newer variants run only the 6 three-stream assignments "
-             "that keep all streams busy), each repeated with free-running threads that construct their "
-             "Steppers concurrently on one shared CoreParams, under ThreadSanitizer; the threads rendezvous at every begin-run action and at their first 48 "
+             "that keep all streams busy; 4 streams identity + rotated, 8 identity, 16 rotated), each repeated with free-running threads that construct their "
+             "Steppers concurrently on one shared CoreParams, under ThreadSanitizer; the threads rendezvous at every begin-run action and at their first 32 "
              "step actions (CELERITAS_VERIF hooks) so that the same action of the shared registry really "
              "runs side by side on all streams even on a busy machine. celer-sim's "
              "Runner/Transporter are modelled by this pattern, not executed. "
@@ -29,15 +29,15 @@ CHECK = {
         "part",
         "memory orderings weaker than sequential consistency are not modelled",
     ],
-    "bounds": {"quick": {"preemptions": 1, "tsan_repetitions": 2},
+    "bounds": {"quick": {"preemptions": 1, "tsan_repetitions": 1},
                "thorough": {"preemptions": "2 (T=2, small budgets) + 1 (T=2,3, doubled budgets)",
-                            "tsan_repetitions": 10}},
+                            "tsan_repetitions": 5}},
     "parts": [
         {"name": "sched", "harness": "c07_sched", "flavour": "rel",
          "shards": {"quick": 16, "thorough": 16}, "deadline": {"quick": 100, "thorough": 1200},
          "ldflags": ["-ldl"]},
         {"name": "tsan", "harness": "c07_streams", "flavour": "tsan",
-         "shards": {"quick": 8, "thorough": 8}, "deadline": {"quick": 150, "thorough": 1200},
+         "shards": {"quick": 16, "thorough": 16}, "deadline": {"quick": 150, "thorough": 1200},
          "env": {"TSAN_OPTIONS": "halt_on_error=0 report_signal_unsafe=0 second_deadlock_stack=1 "
                                  "log_path=tsan_report history_size=4 exitcode=0"}},
     ],
